@@ -269,6 +269,63 @@ pub fn scenarios() -> Vec<Scenario> {
             inputs: vec!["."],
             recursive: false,
         },
+        // a command that prints more than a pipe holds (stdout, and stderr of a failing one): no deadlock, all of it is the output
+        Scenario {
+            name: "big_command_output",
+            files: vec![("a.txt.txtpp", s("head\n-TXTPP#run head -c 200000 /dev/zero | tr '\\0' x; head -c 200000 /dev/zero | tr '\\0' e >&2\ntail\n"))],
+            inputs: vec!["."],
+            recursive: false,
+        },
+        Scenario {
+            name: "big_stderr_failing_command",
+            files: vec![("a.txt.txtpp", s("-TXTPP#run head -c 200000 /dev/zero | tr '\\0' e >&2; head -c 200000 /dev/zero | tr '\\0' x; exit 3\n")), ("ok.txt.txtpp", s("fine\n"))],
+            inputs: vec!["."],
+            recursive: false,
+        },
+        // every kind of directive output in a CRLF source, each without a final line break of its own
+        Scenario {
+            name: "crlf_directive_outputs",
+            files: vec![
+                ("a.txt.txtpp", s("first\r\n  -TXTPP#include nonl.txt\r\nafter include\r\n-TXTPP#run printf 'r1\\nr2'\r\nafter run\r\n  # TXTPP#write w1\r\n  # w2\r\nafter write\r\n// TXTPP#temp t.txt\r\n// c1\r\n// c2\r\n-TXTPP#include t.txt\r\nend\r\n")),
+                ("nonl.txt", s("x\ny")),
+            ],
+            inputs: vec!["."],
+            recursive: false,
+        },
+        // a directive whose output is the empty text still fills the tag that waits for it
+        Scenario {
+            name: "tag_empty_output",
+            files: vec![
+                ("a.txt.txtpp", s("-TXTPP#tag E1\n-TXTPP#include empty.txt\n[E1]\n-TXTPP#tag E2\n-TXTPP#run true\n<E2>\n-TXTPP#run echo next\nend\n")),
+                ("empty.txt", s("")),
+            ],
+            inputs: vec!["."],
+            recursive: false,
+        },
+        // a temp target that is an existing directory: build fails, clean still succeeds and leaves the directory alone
+        Scenario {
+            name: "temp_target_is_directory",
+            files: vec![("a.txt.txtpp", s("-TXTPP#temp gen\n-content\nrest\n")), ("gen/keep.txt", s("k\n")), ("ok.txt.txtpp", s("fine\n"))],
+            inputs: vec!["."],
+            recursive: false,
+        },
+        // both spellings of a source for the same output (identical text): no cycle, everything built.  One worker only
+        // (see cfg): with more, the two writers of b.txt race, and what the includer reads is not defined.
+        Scenario {
+            name: "two_sources_one_target",
+            files: vec![("a.txt.txtpp", s("-TXTPP#include b.txt\nend\n")), ("b.txt.txtpp", s("B\n")), ("b.txtpp.txt", s("B\n"))],
+            inputs: vec!["b.txtpp.txt", "a.txt"], // the spelling the include does NOT resolve to is scheduled first
+            recursive: false,
+        },
+        // file names that are not UTF-8 (see scenario_raw_files): the output name keeps the bytes
+        Scenario { name: "nonutf8_names", files: vec![("plain.txt.txtpp", s("p\n"))], inputs: vec!["."], recursive: false },
+        // history only (see edited_files): a statically included file later gets a source of its own
+        Scenario {
+            name: "include_gains_source",
+            files: vec![("a.txt.txtpp", s("head\n-TXTPP#include x.txt\n-TXTPP#after y.txt\n-TXTPP#run cat y.txt\ntail\n")), ("x.txt", s("OLD\n")), ("y.txt", s("OLDY\n"))],
+            inputs: vec!["a.txt"],
+            recursive: false,
+        },
         Scenario { name: "missing_target", files: vec![("a.txt.txtpp", s("a\n"))], inputs: vec!["nothere.txt"], recursive: false },
     ]
 }
@@ -288,15 +345,18 @@ fn is_txtpp_name(name: &str) -> bool {
     ext(name) == Some("txtpp") || (ext(name).is_some() && ext(stem(name)) == Some("txtpp"))
 }
 
-fn output_name(name: &str) -> String {
-    let i = name.rfind('.').unwrap();
-    let (st, e) = (&name[..i], &name[i + 1..]);
-    if e == "txtpp" {
-        st.to_string()
+fn output_name_os(name: &std::ffi::OsStr) -> std::ffi::OsString {
+    use std::os::unix::ffi::{OsStrExt, OsStringExt};
+    let b = name.as_bytes();
+    let i = b.iter().rposition(|c| *c == b'.').unwrap();
+    let (st, e) = (&b[..i], &b[i + 1..]);
+    let v = if e == b"txtpp" {
+        st.to_vec()
     } else {
-        let j = st.rfind('.').unwrap();
-        format!("{}.{}", &st[..j], e)
-    }
+        let j = st.iter().rposition(|c| *c == b'.').unwrap();
+        [&st[..j], &b"."[..], e].concat()
+    };
+    std::ffi::OsString::from_vec(v)
 }
 
 fn source_of(p: &Path) -> Option<PathBuf> {
@@ -457,8 +517,7 @@ impl RefRun {
         let text = String::from_utf8(bytes).map_err(|_| ())?;
         let le = first_le(&text);
         let dir = src.parent().unwrap().to_path_buf();
-        let name = src.file_name().unwrap().to_str().unwrap();
-        let out_path = dir.join(output_name(name));
+        let out_path = dir.join(output_name_os(src.file_name().unwrap()));
         let mut out = String::new();
         let mut pending = false;
         let mut cur: Option<DV> = None;
@@ -610,6 +669,14 @@ fn scenario_links(name: &str) -> &'static [(&'static str, &'static str)] {
     }
 }
 
+/// files of a scenario whose names are not UTF-8: (path bytes, content)
+fn scenario_raw_files(name: &str) -> Vec<(Vec<u8>, Vec<u8>)> {
+    match name {
+        "nonutf8_names" => vec![(b"caf\xe9.txtpp.txt".to_vec(), s("c\n")), (b"n\xe9.md.txtpp".to_vec(), s("-TXTPP#run echo n\n")), (b"d\xe9cor.bin".to_vec(), s("keep\n"))],
+        _ => vec![],
+    }
+}
+
 fn materialize(root: &Path, sc: &Scenario) {
     let _ = fs::remove_dir_all(root);
     fs::create_dir_all(root).unwrap();
@@ -621,6 +688,10 @@ fn materialize(root: &Path, sc: &Scenario) {
             use std::os::unix::fs::PermissionsExt;
             fs::set_permissions(&fp, fs::Permissions::from_mode(0o755)).unwrap();
         }
+    }
+    for (n, c) in scenario_raw_files(sc.name) {
+        use std::os::unix::ffi::OsStringExt;
+        fs::write(root.join(std::ffi::OsString::from_vec(n)), c).unwrap();
     }
     for (l, t) in scenario_links(sc.name) {
         let lp = root.join(l);
@@ -635,7 +706,7 @@ fn cfg(root: &Path, sc: &Scenario, mode: Mode, threads: usize, tn: bool) -> Conf
         shell_cmd: if sc.name == "custom_shell_one_word" { root.join("probe.sh").display().to_string() } else { "".into() },
         inputs: sc.inputs.iter().map(|x| x.to_string()).collect(),
         recursive: sc.recursive,
-        num_threads: threads,
+        num_threads: if sc.name == "two_sources_one_target" { 1 } else { threads },
         mode,
         verbosity: Verbosity::Quiet,
         trailing_newline: tn,
@@ -649,7 +720,7 @@ fn required_sources(root: &Path, sc: &Scenario) -> Result<Vec<PathBuf>, ()> {
         es.sort();
         for p in es {
             if p.is_file() {
-                if is_txtpp_name(p.file_name().unwrap().to_str().unwrap()) {
+                if is_txtpp_name(&p.file_name().unwrap().to_string_lossy()) {
                     out.push(p);
                 }
             } else if p.is_dir() && rec {
@@ -769,13 +840,21 @@ fn scenario_props(name: &str) -> &'static [&'static str] {
         "dep_only_via_txtpp_ext" => &["C02", "C11", "C08"],
         "cycle_via_txtpp_ext" => &["C05", "C11"],
         "include_invalid_utf8" => &["C04"],
-        "temp_outside_dir" => &["C07", "C10"],
+        "temp_outside_dir" => &["C07", "C10", "C11"], // its input is a named sub-directory
         "temp_in_missing_dir" => &["C10"],
         "tag_single_line_foreign_le" => &["C12", "C14"],
         "directive_names_are_case_sensitive" => &["C15", "C16"],
         "custom_shell_one_word" => &["C17"],
         "many_files_one_failing" => &["C04", "C18", "C03"],
         "self_include_after_other_dep" => &["C05"],
+        "big_command_output" => &["C17", "C03", "C18"],
+        "big_stderr_failing_command" => &["C04", "C03", "C18"],
+        "crlf_directive_outputs" => &["C12"],
+        "tag_empty_output" => &["C14"],
+        "temp_target_is_directory" => &["C07", "C10"],
+        "two_sources_one_target" => &["C05", "C11"],
+        "nonutf8_names" => &["C10", "C11"],
+        "include_gains_source" => &["C02"],
         _ => &[],
     }
 }
@@ -792,6 +871,15 @@ impl SysReport {
     fn fail_base(&mut self, sc: &Scenario, phase: &str, detail: String, certain: &[&'static str], scenario_tags: &[&'static str]) {
         self.base_pending.push((format!("\"scenario\":{},\"phase\":{},{}", crate::jstr(sc.name), crate::jstr(phase), scenario_files_json(sc)),
             crate::jstr(&detail), sc.name.to_string(), certain.to_vec(), scenario_tags.to_vec()));
+    }
+
+    /// a failure rendered by a job: kept if one of its properties has fewer than two witnesses so far (over ALL jobs, so
+    /// that hundreds of failing random projects cannot crowd out the one scenario that speaks about another property)
+    fn merge_failure(&mut self, f: String) {
+        let props: Vec<String> = f.split("\"props\":[").nth(1).and_then(|r| r.split(']').next()).map(|l| l.split(',').map(|x| x.to_string()).collect()).unwrap_or_default();
+        if props.is_empty() || props.iter().any(|p| self.failures.iter().filter(|g| g.contains(p.as_str())).count() < 2) {
+            self.failures.push(f);
+        }
     }
 
     fn push_rendered(&mut self, input: &str, detail_json: &str, props: &[&str]) {
@@ -857,7 +945,8 @@ fn diff_props(exp: &Tree, got: &Tree, initial: &Tree, conforming_base: bool) -> 
                     match g {
                         None => v.push("C01"),
                         Some(g) => {
-                            let norm = |x: &[u8]| String::from_utf8_lossy(x).replace("\r\n", "\n");
+                            // equal once every CR is dropped: only line endings (CRLF vs LF, or a stray CR) differ
+                            let norm = |x: &[u8]| String::from_utf8_lossy(x).replace('\r', "");
                             let strip = |x: &[u8]| {
                                 let t = String::from_utf8_lossy(x).to_string();
                                 t.strip_suffix("\r\n").or(t.strip_suffix('\n')).map(|r| r.to_string()).unwrap_or(t)
@@ -938,7 +1027,9 @@ pub fn run_all(work: &Path) -> SysReport {
                 let mut t = total.lock().unwrap();
                 t.checked += r.checked;
                 t.expected_err.extend(r.expected_err);
-                t.failures.extend(r.failures);
+                for f in r.failures {
+                    t.merge_failure(f);
+                }
                 t.base_pending.extend(r.base_pending);
             });
         }
@@ -961,7 +1052,6 @@ pub fn run_all(work: &Path) -> SysReport {
         t.push_rendered(input, detail_json, &ps);
     }
     late_activity_check(work, &mut t);
-    t.failures.truncate(60);
     t
 }
 
@@ -1550,6 +1640,8 @@ fn edited_files(name: &str) -> Option<Vec<(&'static str, Vec<u8>)>> {
         "temp_files" => Some(vec![("a.txt.txtpp", s("// TXTPP#temp t1.txt\n// line1 EDITED\n//\n//   line3\nmid\n-TXTPP#temp sub/t2.txt\n+TXTPP#include t1.txt\nend\n"))]),
         "chain" => Some(vec![("c.txtpp", s("C1 edited\nC2"))]),
         "run_echo" => Some(vec![("a.txt.txtpp", s("x\n  # TXTPP#run echo 1; echo CHANGED\ny\n-TXTPP#run printf 'p q'\nz\n"))]),
+        // the included / awaited files get sources: from now on they are dependencies, built before they are read
+        "include_gains_source" => Some(vec![("x.txt.txtpp", s("NEW\n-TXTPP#run echo generated\n")), ("y.txtpp.txt", s("NEWY\n"))]),
         _ => None,
     }
 }
@@ -1561,7 +1653,9 @@ fn edit_history(rep: &mut SysReport, work: &Path, sc: &Scenario, tn: bool) {
     let root = work.join("real");
     let edited = Scenario {
         name: sc.name,
-        files: sc.files.iter().map(|(p, c)| (*p, edits.iter().find(|(q, _)| q == p).map(|(_, e)| e.clone()).unwrap_or(c.clone()))).collect(),
+        files: sc.files.iter().map(|(p, c)| (*p, edits.iter().find(|(q, _)| q == p).map(|(_, e)| e.clone()).unwrap_or(c.clone())))
+            .chain(edits.iter().filter(|(q, _)| !sc.files.iter().any(|(p, _)| p == q)).cloned()) // files the edit adds
+            .collect(),
         inputs: sc.inputs.clone(),
         recursive: sc.recursive,
     };
@@ -1596,7 +1690,11 @@ fn edit_history(rep: &mut SysReport, work: &Path, sc: &Scenario, tn: bool) {
                 }
             }
             _ => {
-                let props: &[&str] = if matches!(mode, Mode::Build) { &["C08"] } else { &["C09", "C08"] };
+                let mut props: Vec<&str> = if matches!(mode, Mode::Build) { vec!["C08"] } else { vec!["C09", "C08"] };
+                if sc.name == "include_gains_source" {
+                    props.push("C02");
+                }
+                let props = &props[..];
                 if r != Ok(true) {
                     rep.fail(sc, &phase, format!("{r:?} but a fresh build of the edited sources succeeds"), props);
                 } else if let Some(d) = diff_trees(&fresh_tree, &snapshot(&root), &|_| false) {
@@ -1616,7 +1714,11 @@ fn clean_without_build(mut rep: SysReport, root: &Path, sc: &Scenario, tn: bool)
     materialize(root, sc);
     let before = snapshot(root);
     match run_real(cfg(root, sc, Mode::Clean, 2, true)) {
-        Ok(_) => {
+        Ok(v) => {
+            // directive errors never fail a clean; an input that cannot be resolved or a source that is not text may
+            if !v && !matches!(sc.name, "missing_target" | "invalid_utf8_midfile") {
+                rep.fail(sc, "Clean on a never-built tree", "clean reports a failure".to_string(), &["C07"]);
+            }
             let after = snapshot(root);
             if let Some(d) = diff_trees(&before, &after, &|_| false) {
                 rep.fail(sc, "Clean on a never-built tree", format!("clean changed the tree: {d}"), &["C07", "C10"]);
